@@ -49,6 +49,7 @@ class DC:
         self.conns: t.List["Conn"] = []
         # fault / deviation knobs
         self.epm_stub: t.Optional[bytes] = None  # replaces the ept_map reply stub
+        self.btfn = True  # bind time feature negotiation supported (negotiate_ack); False: provider_rejection, reason 2 (legal)
         self.epm_teardown = False  # the endpoint mapper closes its end right after the ept_map reply (the client's shutdown() then meets ENOTCONN)
         self.epm_towers: t.Optional[t.List[t.List[epm.Floor]]] = None
         self.epm_status = 0
@@ -189,7 +190,8 @@ class Conn:
         res = []
         for cid, abstract, transfers in contexts:
             if len(transfers) == 1 and rpc.is_btfn(transfers[0]):
-                res.append((NEG_ACK, 3, NIL))
+                # a server that does not implement bind time feature negotiation answers that context like any unknown transfer syntax
+                res.append((NEG_ACK, 3, NIL) if self.dc.btfn else (PROV_REJ, 2, NIL))
             elif abstract == served and rpc.NDR64 in transfers:
                 res.append((ACCEPT, 0, rpc.NDR64))
                 self.accepted[cid] = (abstract, rpc.NDR64)
